@@ -58,6 +58,7 @@ def gen(rng, broker, tier):
             names.append("result")
         subs.append({"conn": rng.randrange(nconn), "signal": f"{when}_{op}", "args": names,
                      "kind": rng.choice(["async", "async", "sync"]), "behave": rng.choice(["ok", "ok", "raise", "slow"]),
+                     "text": rng.choice(["subscriber raises", "bad payload {'a': 1}", "{}", "{0} {name!r} }{"]),
                      "delay_us": rng.choice([1000, 50_000, 400_000])})
     jobs = []
     for c in range(nconn):
@@ -178,7 +179,7 @@ async def _main(sim, sc, out):
                     async def body(kwargs):
                         if s["behave"] == "raise":
                             invoked["raise"] += 1
-                            raise RuntimeError("subscriber raises")
+                            raise RuntimeError(s.get("text", "subscriber raises"))
                         if s["behave"] == "slow":
                             invoked["slow"] += 1
                             await asyncio.sleep(s["delay_us"] / 1e6)
@@ -187,7 +188,7 @@ async def _main(sim, sc, out):
                     def body(kwargs):
                         if s["behave"] == "raise":
                             invoked["raise"] += 1
-                            raise RuntimeError("subscriber raises")
+                            raise RuntimeError(s.get("text", "subscriber raises"))
                         return "ignored"
                 return body
 
